@@ -256,6 +256,169 @@ Arguments mk_state {P}. Arguments sidx {P}. Arguments swp {P}.
 Arguments r_prim {P D}. Arguments r_sec {P D}. Arguments r_prow {P D}. Arguments r_srow {P D}.
 Arguments r_int {P D}. Arguments r_dist {P D}.
 
+(* ------------------------------------------------------------------ the stages of collocate by name
+   (for the statements about each pair once, the stored values and the compaction; Proofs/C04_collocate.v
+   collocate_checked shows that collocate is create_return of exactly these) *)
+Section Stages.
+  Variable P : Type.
+  Variable D : Type.
+  Variable near : P -> P -> bool.
+  Variable dist : P -> P -> D.
+  Variable ctest : list P -> list P -> bool.
+
+  (* the selected, sorted and flattened points of both datasets (what _prepare_data returns) *)
+  Definition selected_p (c : cfg) (dp ds : dataset P) : list (pt P) :=
+    points_of P (select P (common_start c (times_of P dp) (times_of P ds)) (common_end c (times_of P dp) (times_of P ds)) dp).
+  Definition selected_s (c : cfg) (dp ds : dataset P) : list (pt P) :=
+    points_of P (select P (common_start c (times_of P dp) (times_of P ds)) (common_end c (times_of P dp) (times_of P ds)) ds).
+
+  (* pairs[:, passed_temporal_check] with distances[passed_temporal_check]: rows (index into the NaN-free
+     primary points, index into the NaN-free secondary points, distance); [] when nothing is selected *)
+  Definition checked (tn : tune) (st : state P) (c : cfg) (dp ds : dataset P) : list (nat * nat * D) :=
+    let lo := common_start c (times_of P dp) (times_of P ds) in
+    let hi := common_end c (times_of P dp) (times_of P ds) in
+    if isnil (times_of P (select P lo hi dp)) || isnil (times_of P (select P lo hi ds)) then []
+    else
+      let v1 := filter (has_pos P) (selected_p c dp ds) in
+      let v2 := filter (has_pos P) (selected_s c dp ds) in
+      let r := if thr tn <? Z.of_nat (length v1 * length v2)
+               then binned_search P D near dist ctest (mfac tn) (mi c) (bw tn) (borigin tn) st v1 v2
+               else spatial_search P D near dist ctest (mfac tn) st (poslist P v1) (poslist P v2) in
+      filter (fun x => passes (mi c) (ptime (nth (fst (fst x)) v1 (d0 P))) (ptime (nth (snd (fst x)) v2 (d0 P)))) (snd r).
+
+  (* the index pair of a row *)
+  Definition ipair (x : nat * nat * D) : nat * nat := fst x.
+
+  (* the argument `original_pairs` of _create_return (_to_original of the checked rows): index pairs into
+     the selected points, NaN points counted *)
+  Definition original_pairs (tn : tune) (st : state P) (c : cfg) (dp ds : dataset P) : list (nat * nat) :=
+    map (fun x => (nth (fst (fst x)) (orig_of P (selected_p c dp ds)) 0%nat,
+                   nth (snd (fst x)) (orig_of P (selected_s c dp ds)) 0%nat))
+        (checked tn st c dp ds).
+
+  (* the k-th pair of a result as the two stored points it names *)
+  Definition pair_pts (r : result P D) : list (pt P * pt P) :=
+    combine (gather (d0 P) (r_prow r) (r_prim r)) (gather (d0 P) (r_srow r) (r_sec r)).
+  (* the distance of two points as the spatial index reports it (None: a NaN position) *)
+  Definition pos_dist (p s : pt P) : option D :=
+    match ppos p, ppos s with Some a, Some b => Some (dist a b) | _, _ => None end.
+  (* the compact output in the form of Model/C13_compact.v *)
+  Definition as_cds (r : result P D) : cds (pt P) (pt P) := mk_cds (r_prow r) (r_srow r) (r_prim r) (r_sec r).
+End Stages.
+
+(* ------------------------------------------------------------------ collocate on separate arrays
+   The code does not carry rows (i, j, distance): it carries `pairs` (2 x n) and `distances` (n), later
+   `intervals` (n), and keeps them aligned by applying the same operation to each: the row swap
+   pairs[[0, 1]] = pairs[[1, 0]] touches the pairs only, the offsets are added per row, np.hstack is applied to
+   the list of pairs and to the list of distances, the mask of the temporal check is applied three times
+   (pairs[:, mask], intervals[mask], distances[mask]).  `collocate_a` mirrors exactly that; Props/C04.v
+   arrays_agree: collocate_a = collocate. *)
+Section Arrays.
+  Variable P : Type.
+  Variable D : Type.
+  Variable near : P -> P -> bool.
+  Variable dist : P -> P -> D.
+  Variable ctest : list P -> list P -> bool.
+
+  Record hits := mk_hits { h0 : list nat; h1 : list nat; hd : list D }.      (* pairs[0], pairs[1], distances *)
+  Definition no_hits : hits := mk_hits [] [] [].                              (* self.no_pairs, self.no_distances *)
+  Definition unzip3 (r : list (nat * nat * D)) : hits :=
+    mk_hits (map (fun x => fst (fst x)) r) (map (fun x => snd (fst x)) r) (map snd r).
+
+  (* GeoIndex(B).query(Q, r) -> pairs, distances *)
+  Definition gquery_a (B Q : list P) : hits := unzip3 (gquery P D near dist B Q).
+  Definition swap_rows (h : hits) : hits := mk_hits (h1 h) (h0 h) (hd h).    (* pairs[[0, 1]] = pairs[[1, 0]] *)
+
+  Definition spatial_search_a (mf : Z) (st : state P) (L1 L2 : list P) : state P * hits :=
+    let wp := choose P ctest mf st L1 L2 in
+    let B := if wp then L1 else L2 in
+    let Q := if wp then L2 else L1 in
+    let ix := match sidx st with Some i' => if ctest B i' then i' else B | None => B end in
+    let res := gquery_a ix Q in
+    (mk_state (Some ix) wp, if wp then res else swap_rows res).
+
+  (* pairs[0] += offset1; pairs[1] += offset2 *)
+  Definition add_offsets (o1 o2 : nat) (h : hits) : hits := mk_hits (map (Nat.add o1) (h0 h)) (map (Nat.add o2) (h1 h)) (hd h).
+
+  Definition bin_search_a (mf m w o : Z) (A B : list (pt P)) (st : state P) (b : Z) : state P * hits :=
+    let c1 := filter (fun p => binof w o (ptime p) =? b) A in
+    let start := edge w o b in
+    let lo := start - m in
+    let hi := zmax_l (map ptime c1) + m in
+    let off1 := length (filter (fun p => ptime p <? start) A) in
+    let off2 := length (filter (fun p => ptime p <? lo) B) in
+    let c2 := filter (fun p => in_range lo hi (ptime p)) B in
+    if isnil c1 || isnil c2 then (st, no_hits)
+    else let r := spatial_search_a mf st (poslist P c1) (poslist P c2) in
+         (fst r, add_offsets off1 off2 (snd r)).
+
+  (* np.hstack(pairs_list), np.hstack(distances_list) *)
+  Definition hstack (a b : hits) : hits := mk_hits (h0 a ++ h0 b) (h1 a ++ h1 b) (hd a ++ hd b).
+  Fixpoint fold_bins_a (f : state P -> Z -> state P * hits) (st : state P) (bs : list Z) : state P * hits :=
+    match bs with
+    | [] => (st, no_hits)
+    | b :: t => let r := f st b in
+                let r' := fold_bins_a f (fst r) t in
+                (fst r', hstack (snd r) (snd r'))
+    end.
+
+  Definition binned_search_a (mf m w o : Z) (st : state P) (V1 V2 : list (pt P)) : state P * hits :=
+    let swapped := (length V1 <? length V2)%nat in
+    let A := if swapped then V2 else V1 in
+    let B := if swapped then V1 else V2 in
+    let r := fold_bins_a (bin_search_a mf m w o A B) st (bins_of w o (map ptime A)) in
+    (fst r, if swapped then swap_rows (snd r) else snd r).
+
+  (* array[mask] *)
+  Fixpoint compress {A} (mask : list bool) (l : list A) : list A :=
+    match mask, l with
+    | b :: m, x :: t => if b then x :: compress m t else compress m t
+    | _, _ => []
+    end.
+  (* time1[pairs[0]] *)
+  Definition take_times (v : list (pt P)) (idx : list nat) : list Z := map (fun i => ptime (nth i v (d0 P))) idx.
+  (* _get_intervals(time1[pairs[0]], time2[pairs[1]]): element-wise, whole seconds *)
+  Definition intervals_a (t1 t2 : list Z) : list Z := map (fun ab => interval_s (fst ab) (snd ab)) (combine t1 t2).
+
+  (* _create_return(primary, secondary, original_pairs, intervals, distances) *)
+  Definition create_return_a (f1 f2 : list (pt P)) (op0 op1 : list nat) (ints : list Z) (dists : list D) : option (result P D) :=
+    match op0 with
+    | [] => None
+    | _ => let cp := compact op0 in
+           let cs := compact op1 in
+           Some (mk_res P D (gather (d0 P) (fst cp) f1) (gather (d0 P) (fst cs) f2) (snd cp) (snd cs) ints dists)
+    end.
+
+  Definition collocate_a (tn : tune) (st : state P) (c : cfg) (dp ds : dataset P) : state P * option (result P D) :=
+    let lo := common_start c (times_of P dp) (times_of P ds) in
+    let hi := common_end c (times_of P dp) (times_of P ds) in
+    let sp := select P lo hi dp in
+    let ss := select P lo hi ds in
+    if isnil (times_of P sp) || isnil (times_of P ss) then (st, None)
+    else
+      let f1 := points_of P sp in
+      let f2 := points_of P ss in
+      let v1 := filter (has_pos P) f1 in
+      let v2 := filter (has_pos P) f2 in
+      let o1 := orig_of P f1 in
+      let o2 := orig_of P f2 in
+      let r := if thr tn <? Z.of_nat (length v1 * length v2)
+               then binned_search_a (mfac tn) (mi c) (bw tn) (borigin tn) st v1 v2
+               else spatial_search_a (mfac tn) st (poslist P v1) (poslist P v2) in
+      let pairs := snd r in
+      if isnil (h0 pairs) then (fst r, None)                                   (* if not pairs.size *)
+      else
+        let ints := intervals_a (take_times v1 (h0 pairs)) (take_times v2 (h1 pairs)) in
+        let mask := map (fun iv => iv * sec <? mi c) ints in                   (* intervals < max_interval *)
+        (fst r, create_return_a f1 f2
+                  (map (fun i => nth i o1 0%nat) (compress mask (h0 pairs)))   (* _to_original(pairs[:, mask]) *)
+                  (map (fun j => nth j o2 0%nat) (compress mask (h1 pairs)))
+                  (compress mask ints) (compress mask (hd pairs))).
+End Arrays.
+
+Arguments h0 {D}. Arguments h1 {D}. Arguments hd {D}.
+
+
 (* ------------------------------------------------------------------ the code as found (before fixes/C04_2)
    _spatial_is_cached = np.allclose(lat, index.lat) & np.allclose(lon, index.lon): element-wise closeness
    (broadcasting is not modelled: equal lengths only) *)
@@ -327,7 +490,19 @@ Fixpoint run_calls (st : state cpos) (cs : list ecall) : list (list (Z * Z * Z *
   match cs with
   | [] => []
   | (rm, r2, tn, c, dp, ds) :: t =>
-      let r := collocate cpos Z (near_c rm r2) dist_c ctest_c tn st c dp ds in
+      (* the array form of the code; = collocate by Props/C04.v arrays_agree *)
+      let r := collocate_a cpos Z (near_c rm r2) dist_c ctest_c tn st c dp ds in
       (show_res (snd r), spec_pairs_lean cpos (near_c rm r2) c dp ds) :: run_calls (fst r) t
   end.
 Definition run_history (cs : list ecall) := run_calls (init_state cpos) cs.
+
+(* ------------------------------------------------------------------ certified checker of what the implementation
+   returned (tools/props/c04.py): Collocations/pairs rows and the `id` variable of both groups.
+   -> (the compact format is valid: rows in range and every stored point used [Model/C13_compact.v compact_okb],
+       every original point is stored once, the id pairs the rows name).
+   Props/C04.v checker_accepts_model: every output of the model passes, with its own id pairs. *)
+Fixpoint nodupZ (l : list Z) : bool :=
+  match l with [] => true | x :: t => negb (existsb (Z.eqb x) t) && nodupZ t end.
+Definition check_output (prow srow pids sids : list Z) : bool * bool * list (Z * Z) :=
+  let d := mk_cds (ns prow) (ns srow) pids sids in
+  (compact_okb d, nodupZ pids && nodupZ sids, expand 0 0 d).
